@@ -218,6 +218,15 @@ func (p *Pool) Apply(s Step) (res Result) {
 		}
 		in[i] = t
 	}
+	res = ApplyOn(s, in)
+	if res.Err == nil && res.T != nil && s.Out >= 0 {
+		p.T[s.Out] = res.T
+	}
+	return
+}
+
+// ApplyOn executes one step on explicit operand tensors (no pool).
+func ApplyOn(s Step, in []tensor.Tensor) (res Result) {
 	need := func(n int) bool {
 		if len(in) < n {
 			res.Err = ErrDangling{-2}
@@ -400,11 +409,7 @@ func (p *Pool) Apply(s Step) (res Result) {
 			x.ResetGradContext(s.B)
 			return
 		case "grad":
-			g := x.Gradient()
-			res.T = g
-			if g != nil && s.Out >= 0 {
-				p.T[s.Out] = g
-			}
+			res.T = x.Gradient()
 			return
 		/* reads */
 		case "at":
@@ -457,10 +462,6 @@ func (p *Pool) Apply(s Step) (res Result) {
 	res.T, res.Err = t, err
 	if err != nil {
 		res.T = nil
-	}
-	// a typed-nil guard: the library returns interface values; nil on error
-	if res.Err == nil && t != nil && s.Out >= 0 {
-		p.T[s.Out] = t
 	}
 	return
 }
